@@ -7,14 +7,17 @@ package list
 //@ ghost field (Set) Mem map[string]bool
 
 //@ method (Set).Put
+//@ terminates
 //@ assigns self.Mem
 //@ ensures [put] self.Mem == store(old(self.Mem), s, true)
 
 //@ method (Set).Remove
+//@ terminates
 //@ assigns self.Mem
 //@ ensures [remove] self.Mem == store(old(self.Mem), s, false)
 
 //@ method (Set).Exists
+//@ terminates
 //@ assigns nothing
 //@ ensures [exists] ok == self.Mem[t]
 
